@@ -59,7 +59,7 @@ def run(chk, prog):
     A.require(len(fd) == 1, "DriftMap: offset formula not found")
     fd = fd[0]
     y = fd["loops"][0].sym
-    isym = [L.sym for a in sdm.accesses if a.kind == "store" and a.base == "_offset" for L in a.loops if L.sym is not None and L.sym != y]
+    isym = [L.sym for a in I._through_scalar_accumulators(sdm.accesses, "_offset") if a.kind == "store" and a.base == "_offset" for L in a.loops if L.sym is not None and L.sym != y]
     A.require(isym, "DriftMap: slip loop not found")
     i_ = isym[0]
     slip0 = sp.IndexedBase("slip")[0]
